@@ -819,6 +819,11 @@ pub trait Subject: Sync {
     fn save_encrypted_file(&self, v: &Val, path: &std::path::Path, compressed_hint: bool, password: &str) -> Result<(), SavefileError>;
     fn load_encrypted_file(&self, path: &std::path::Path, password: &str) -> Result<Val, SavefileError>;
     fn debug(&self, v: &Val) -> String;
+    /// true for byte pipes without length framing, where a stream cut at a chunk boundary legitimately reads as a
+    /// shorter stream: `loaded` is then only required to be a prefix of `original`
+    fn prefix_is_legitimate(&self, _loaded: &Val, _original: &Val) -> bool {
+        false
+    }
 }
 /// `Write`/`Read` as trait objects that are also `Sized` wrappers can borrow
 pub trait DynWrite: Write {}
@@ -922,6 +927,114 @@ impl<T: Serialize> Subj<T> {
     }
 }
 
+/// CryptoWriter / CryptoReader used directly as a byte pipe (they are public `Write` / `Read` wrappers): the
+/// caller writes in pieces, flushes now and then and - as callers customarily do - retries a flush that
+/// was interrupted; the reader pulls with its own buffer sizes. Only meaningful for the encrypted-plain container.
+#[derive(Debug, PartialEq, Clone)]
+pub struct PipeVal {
+    pub data: Vec<u8>,
+    pub pieces: Vec<usize>,
+    pub flush_every: usize,
+    pub read_sizes: Vec<usize>,
+}
+pub struct PipeSubj;
+fn flush_retrying(w: &mut impl Write) -> std::io::Result<()> {
+    let mut tries = 0;
+    loop {
+        match w.flush() {
+            Err(e) if e.kind() == std::io::ErrorKind::Interrupted && tries < 4 => tries += 1,
+            other => return other,
+        }
+    }
+}
+impl Subject for PipeSubj {
+    fn name(&self) -> &'static str {
+        "CryptoPipe"
+    }
+    fn gen(&self, rng: &mut Rng, sc: u8, hint: usize) -> Val {
+        let n = match sc {
+            0 => 0,
+            1 => 1,
+            2 => len_for(rng, 2, 0) * 3,
+            3 => rng.range(200, 5000) as usize,
+            _ => hint.max(1),
+        };
+        let k = rng.range(1, 6) as usize;
+        Box::new(PipeVal {
+            data: rng.bytes(n),
+            pieces: (0..k).map(|_| *rng.pick(&[1usize, 2, 7, 16, 17, 60, 61, 62, 64, 100, 1000, 5000])).collect(),
+            flush_every: rng.range(1, 5) as usize,
+            read_sizes: (0..k).map(|_| *rng.pick(&[1usize, 3, 8, 16, 17, 61, 64, 255, 4096])).collect(),
+        })
+    }
+    fn save(&self, v: &Val, w: &mut dyn DynWrite, _c: Container, key: [u8; 32]) -> Result<(), SavefileError> {
+        let v: &PipeVal = v.downcast_ref::<PipeVal>().expect("type");
+        let mut w = W(w);
+        let mut cw = CryptoWriter::new(&mut w, key)?;
+        let mut off = 0;
+        let mut i = 0;
+        while off < v.data.len() {
+            let n = v.pieces[i % v.pieces.len()].min(v.data.len() - off);
+            cw.write_all(&v.data[off..off + n])?;
+            off += n;
+            i += 1;
+            if i % v.flush_every == 0 {
+                flush_retrying(&mut cw)?;
+            }
+        }
+        flush_retrying(&mut cw)?;
+        Ok(())
+    }
+    fn load(&self, r: &mut dyn DynRead, _c: Container, key: [u8; 32]) -> Result<Val, SavefileError> {
+        let mut r = R(r);
+        let mut cr = CryptoReader::new(&mut r, key)?;
+        let mut data = Vec::new();
+        let sizes = [1usize, 3, 8, 16, 17, 61, 64, 255, 4096];
+        let mut i = 0;
+        loop {
+            let mut buf = vec![0u8; sizes[i % sizes.len()]];
+            i += 1;
+            let n = loop {
+                match cr.read(&mut buf) {
+                    Err(e) if e.kind() == std::io::ErrorKind::Interrupted => continue,
+                    other => break other?,
+                }
+            };
+            if n == 0 {
+                break;
+            }
+            data.extend_from_slice(&buf[..n]);
+            if data.len() > (64 << 20) {
+                return Err(SavefileError::GeneralError { msg: "pipe reader produced more than 64 MiB".into() });
+            }
+        }
+        Ok(Box::new(PipeVal { data, pieces: vec![], flush_every: 1, read_sizes: vec![] }))
+    }
+    fn same(&self, a: &Val, b: &Val) -> bool {
+        a.downcast_ref::<PipeVal>().expect("type").data == b.downcast_ref::<PipeVal>().expect("type").data
+    }
+    fn bare(&self, v: &Val) -> Vec<u8> {
+        v.downcast_ref::<PipeVal>().expect("type").data.clone()
+    }
+    fn walk(&self, v: &Val, w: &mut Walker) {
+        w.collection("pipe bytes", v.downcast_ref::<PipeVal>().expect("type").data.len(), 1);
+    }
+    fn save_encrypted_file(&self, _v: &Val, _path: &std::path::Path, _c: bool, _password: &str) -> Result<(), SavefileError> {
+        Err(SavefileError::GeneralError { msg: "CryptoPipe has no file form".into() })
+    }
+    fn load_encrypted_file(&self, _path: &std::path::Path, _password: &str) -> Result<Val, SavefileError> {
+        Err(SavefileError::GeneralError { msg: "CryptoPipe has no file form".into() })
+    }
+    fn debug(&self, v: &Val) -> String {
+        format!("PipeVal {{ {} bytes }}", v.downcast_ref::<PipeVal>().expect("type").data.len())
+    }
+    fn prefix_is_legitimate(&self, loaded: &Val, original: &Val) -> bool {
+        let l = &loaded.downcast_ref::<PipeVal>().expect("type").data;
+        let o = &original.downcast_ref::<PipeVal>().expect("type").data;
+        l.len() <= o.len() && o[..l.len()] == l[..]
+    }
+}
+
 macro_rules! subj {
     ($t:ty, $n:expr) => {
         &Subj::<$t>($n, std::marker::PhantomData) as &dyn Subject
@@ -945,6 +1058,7 @@ pub fn subjects() -> Vec<&'static dyn Subject> {
         subj!(BitsLast, "BitsLast"),
         subj!(PackedLast, "PackedLast"),
         subj!(ArrLast, "ArrLast"),
+        &PipeSubj as &dyn Subject,
     ]
 }
 pub fn subject(name: &str) -> &'static dyn Subject {
